@@ -115,7 +115,7 @@ func runC16(c c16Case, rng *rand.Rand, r *rep.Report) (key, msg string, stats ma
 			so.SetHttpCompression(&types.HttpCompression{Threshold: c.Threshold})
 			so.SetPingInterval(20 * time.Second)
 			w := rig.NewWorld(rig.Options{Server: so})
-			defer w.Shutdown()
+			defer w.Finish()
 			cl, err := w.Connect(rig.ClientCfg{Rev: c.Rev, Transport: "polling", B64: c.B64, JSONP: c.JSONP, J: c.J, AcceptEnc: c.AcceptEnc})
 			rig.Wait()
 			sock := w.Socket(0)
